@@ -88,8 +88,8 @@ def main(chk):
     if chk.tier == 'quick':
         ns, tf, to = (1, 2, 3, 4), (lambda n: 2 * n + 3), 60
     else:
-        ns, tf, to = (1, 2, 3, 4, 5, 6), (lambda n: 3 * n + 3), 600
-    jobs = [(r_family, (mir, name, n, tf(n), chk.seed, to), {}) for name in NAMES for n in ns]
+        ns, tf, to = (1, 2, 3, 4, 5, 6), (lambda n: 3 * n + 3), 300
+    jobs = [(r_family, (mir, name, n, tf(n), chk.seed, to), {}) for name in NAMES for n in ns if not (name in ('SD', 'BB') and n > 5)]      # SD(6), t=21: nlsat does not finish
     jobs += [(r_family, (mir, name, n, tf(n), chk.seed, to), {'reset_prefix': n + 1}) for name in NAMES for n in ns[:3]]
     cnt, problems = rfam.validate_translator(mir, [(nm, [3], F(2) if nm == 'BB' else None) for nm in NAMES], chk.seed)
     chk.extra['traces_validated'] = cnt
